@@ -110,6 +110,17 @@ def run(ctx):
             for i in range(8):
                 jobs.append({"part": "noncanon", "instance": inst, "k": 4, "ks": [KS[i % 4], KS[(i + 1) % 4]], "shard": i, "nshards": 8, "stride": 7 + (ctx.seed % 5)})
 
+    # the sweep under the other range-check mechanisms (their checks are collected and delivered later, or decomposed into bits): one leaf of
+    # every class with offset 1 at one query round
+    inst0 = insts[-1]  # (cr holds the leaf list of the last instance of the loop above)
+    cls_first = {}
+    for pth in (cr.get("info") or {}).get("gl_proof_leaves", []):
+        import re as _re2
+        cls_first.setdefault(_re2.sub(r"\[\d+\]", "[]", pth), pth)
+    reps = sorted(cls_first.values())
+    for mode in ("commit", "plain"):
+        for i in range(0, len(reps), 4):
+            jobs.append({"part": "noncanon", "instance": inst0, "k": 1, "mode": mode, "ks": ["1"], "paths": reps[i:i + 4], "shard": 800 + i, "nshards": 0, "stride": 1})
     # one verifier chip used for two proofs (a batching caller): the sweep of the second proof must not be weakened by the first
     for pair in (("epochCb+epoch4R", "testdata+roottest") if thorough else ("epochCb+epoch4R",)):
         jobs.append({"part": "two", "instance": pair, "k": 1, "ks": ["noncanon"], "stride": 24 if thorough else 6, "shard": 70})
